@@ -44,6 +44,17 @@ class EnumMember:
         return hash((self.cls, self.name))
 
 
+class Opaque:
+    """a value the folder does not model (an object reached through attributes of self, ...);
+    only usable as the receiver of a hooked call"""
+
+    def __init__(self, text):
+        self.text = text
+
+    def __repr__(self):
+        return "<opaque %s>" % self.text
+
+
 class ClassRef:
     def __init__(self, ci):
         self.ci = ci
@@ -75,6 +86,8 @@ _SAFE_BUILTINS = {
     "divmod": divmod, "zip": lambda *a: list(zip(*a)), "set": set,
     "frozenset": frozenset, "enumerate": lambda x: list(enumerate(x)),
     "memoryview": lambda x: x,
+    "next": lambda it, *d: (list(it)[0] if list(it) else (d[0] if d else (_ for _ in ()).throw(StopIteration()))),
+    "iter": lambda x: list(x),
 }
 _MAX_ITEMS = 70000
 
@@ -327,6 +340,8 @@ class Ev:
             return
         g = gens[0]
         it = self._mk(self.mod, env, self.self_cls, self.depth).ev(g.iter)
+        if isinstance(it, ClassRef) and self.is_enum(it.ci):
+            it = self.enum_members(it.ci)
         for v in it:
             e2 = dict(env)
             self._bind(g.target, v, e2)
@@ -363,6 +378,13 @@ class Ev:
         fname = ast.unparse(n.func)
         if fname in self.hooks:
             return self.hooks[fname]([self.ev(a) for a in n.args])
+        if isinstance(n.func, ast.Attribute) and self.hooks:
+            # receiver given through a local alias of the hooked object
+            recv = n.func.value
+            if isinstance(recv, ast.Name) and isinstance(self.env.get(recv.id), Opaque):
+                full = "%s.%s" % (self.env[recv.id].text, n.func.attr)
+                if full in self.hooks:
+                    return self.hooks[full]([self.ev(a) for a in n.args])
         args = []
         for a in n.args:
             if isinstance(a, ast.Starred):
@@ -498,7 +520,13 @@ class Ev:
         if isinstance(st, ast.Return):
             return ("ret", None if st.value is None else self.ev(st.value))
         if isinstance(st, ast.Assign):
-            v = self.ev(st.value)
+            try:
+                v = self.ev(st.value)
+            except Unknown:
+                if isinstance(st.value, ast.Attribute) and len(st.targets) == 1 and isinstance(st.targets[0], ast.Name):
+                    v = Opaque(ast.unparse(st.value))       # alias of an unmodelled object
+                else:
+                    raise
             for t in st.targets:
                 if isinstance(t, ast.Attribute):
                     self.env[ast.unparse(t)] = v
